@@ -28,4 +28,25 @@ theorem C01_classification_F8_witness :
       = .ok (some { tp := .s 2, tn := .s 0, fp := .s 0, fn := .s 0 }) := by
   exact ⟨rfl, rfl, rfl⟩
 
+/-! ## the other half of F8: the `macro` class axis
+
+`average='macro'`, `vocab=None`, ONE accumulator (so `merge_states`, which refuses macro without a
+vocabulary, is never called): the per-class arrays of the two batches `[0]` and `[1]` both have one
+entry — for *different* classes — and `update_state` adds them position by position.  One batch
+reports two classes with `tp = [1, 1]`, two batches report a single class with `tp = [2]`.
+`C01_classification_novocab_tp_fp_fn` shows that for `micro` nothing but `tn` can move; this is the
+reason `macro` is excluded there. -/
+
+def cfgF8macro : Cfg :=
+  { kind := .cm, metrics := [.RECALL], single := true, posLabel := 1, input := some .multiclass,
+    average := .macro, vocab := none, kList := [] }
+
+theorem C01_classification_F8_macro_witness :
+    feedApi cfgF8macro oneBatch
+      = .ok (some { tp := .v [1, 1], tn := .v [1, 1], fp := .v [0, 0], fn := .v [0, 0] }) ∧
+    feedApi cfgF8macro twoBatches
+      = .ok (some { tp := .v [2], tn := .v [0], fp := .v [0], fn := .v [0] }) ∧
+    runSharded cfgF8macro [[twoBatches[0]], [twoBatches[1]]] = .error .value := by
+  exact ⟨rfl, rfl, rfl⟩
+
 end MlModel.Witness.C01
